@@ -63,6 +63,11 @@ func (b *builder) buildObject(typ *ast.Definition) (*Object, error) {
 			return nil, err
 		}
 		obj.Type = goObject
+		if obj.IsMap() {
+			// a map is a reference type already: its type reference never asks for a pointer, so
+			// the unmarshal function must not return one either
+			obj.PointersInUnmarshalInput = false
+		}
 	}
 
 	for _, intf := range b.Schema.GetImplements(typ) {
